@@ -42,8 +42,7 @@ var sharedViaRegistry = map[string]string{
 	"agent/websockets.Connection": "stored in the shim's session table (sync.Map) and used by later data/poll/close requests",
 }
 
-var exitCallees = []string{"log.Fatal", "log.Fatalf", "log.Fatalln", "log.Panic", "log.Panicf", "log.Panicln", "os.Exit", "runtime.Goexit",
-	"(*log.Logger).Fatal", "(*log.Logger).Fatalf", "(*log.Logger).Fatalln", "(*log.Logger).Panic", "(*log.Logger).Panicf", "(*log.Logger).Panicln", "syscall.Exit"}
+var exitCallees = processExitCallees
 
 // exitSites lists process-terminating sites in module source.
 func exitSites(p *Prog) []ssa.Instruction {
@@ -78,7 +77,7 @@ func runC07(c *Ctx) {
 	p := c.Progs["agent"]
 
 	// ---- C07.F
-	c.Rule("C07.F", "no process-terminating call in module source is reachable from the per-request worker (VTA reachability)", 6)
+	c.Rule("C07.F", "no process-terminating call in module source is reachable from the per-request worker (VTA reachability)", 2)
 	root := c.need(p, "C07.F", "agent.processOneRequest")
 	var reach map[*ssa.Function][]*ssa.Function
 	if root != nil {
